@@ -257,7 +257,8 @@ func (g *Gen) FaultProgram(opts FaultOpts) *Chunk {
 			CallSN("emit", Str("post:self-resume"), &EParen{X: Call(Dot(N("coroutine"), "resume"), Call(Dot(N("coroutine"), "running")))}),
 			CallSN("error", &ETable{Items: []TItem{{Kind: TName, Name: "code", Val: Num(3)}}})))))),
 		// a number as the error value arrives as that number (the position prefix is for strings)
-		CallSN("emit", Str("post:number-error-value"), CallN("pcall", N("error"), Num(42)), CallN("pcall", Fn(nil, false, Blk(CallSN("error", Num(4.5))))),
+		CallSN("emit", Str("post:number-error-value"), &EParen{X: CallN("select", Num(2), CallN("pcall", N("error"), Num(42)))},
+			&EParen{X: CallN("select", Num(2), CallN("pcall", Fn(nil, false, Blk(CallSN("error", Num(4.5))))))},
 			CallN("select", Num(2), CallN("pcall", Fn(nil, false, Blk(CallSN("error", Num(7), Num(2))))))),
 		// a Go panic in a host function called inside a coroutine is that coroutine's error: the resume /
 		// the protected call around the wrap call reports it, the coroutine is dead afterwards and the
